@@ -219,3 +219,11 @@ def run(ctx):
     ctx.attempt(rule_match, ctx)
     ctx.attempt(rule_align, ctx)
     ctx.attempt(rule_concat, ctx)
+    # everything collocate_filesets reaches: per-pair collocate() (C04), the file search behind match() (C01: period,
+    # directory pruning, exclusion, path state) and the interval tree it queries (C03)
+    from . import C04, C01
+    from .C03 import tree_rules
+    for r in (C04.rule_empty, C04.rule_temporal, C04.rule_window, C04.rule_nan, C04.rule_swap, C04.rule_offsets, C04.rule_cache, C04.rule_interval,
+              C01.rule_semiopen, C01.rule_prune, C01.rule_exclude, C01.rule_pathstate):
+        ctx.attempt(r, ctx)
+    tree_rules(ctx, which=("pred", "partition", "descent_q", "scan_q", "early_q", "rows", "empty", "extent", "api"))
